@@ -18,6 +18,9 @@ L_UM, L_IM, L_CNT, L_CHEAD = 300, 310, 320, 321
 L_FLAG, L_OWNER = 501, 502
 
 
+L_REST = 3900     # search mode: byte b of the user mutex = 3900 + b, of the cond = 4900 + b (bytes registered otherwise keep their locs)
+
+
 def parse_case(case):
     v = [int(x) for x in case.split()]
     i = 1 + v[0]
@@ -34,6 +37,9 @@ def monitor(case, tr, raw, stats=None):
     """Property oracle on the implementation trace alone."""
     if tr is None:
         return "implementation produced no trace: %s" % (raw or "")[:80]
+    # search mode (RT_CATCHALL=1): accesses to bytes of the object(s) that have no location of their own are
+    # scheduling points, not events of the protocol judged here
+    tr = [e for e in tr if e[1] < L_REST or e[2] in (909, 919)]
     _, progs = parse_case(case)
     n = len(progs)
     opidx = [0] * n
@@ -274,11 +280,12 @@ def search(ctx, exe):
         cases = gen_cases(c2, "thorough")[:20000]
     finally:
         c2.cleanup()
-    impl = core.run_sharded([exe], cases)
+    # RT_CATCHALL: every byte of the cond and the user mutex objects is a scheduling point (fields the model does not know included)
+    impl = core.run_sharded(["env", "RT_CATCHALL=1", exe], cases)
     for c, line in zip(cases, impl):
-        why = monitor(c, core.parse_trace(line) if line else None, line)
+        why = core.safe_monitor(monitor, c, core.parse_trace(line) if line else None, line)
         if why:
-            core.report_violation(ctx, "cond", c, why, line)
+            core.report_violation(ctx, "cond+catchall", c, why, line)
             if len(ctx.violations) >= 3:
                 break
 
@@ -289,6 +296,11 @@ def replay(ctx, payload):
     if not exe or not c:
         print("nothing to replay (no concrete case in this file)")
         return 2
+    if str(payload.get("harness", "")).endswith("+catchall"):
+        impl = core.run_sharded(["env", "RT_CATCHALL=1", exe], [c])[0]
+        why = core.safe_monitor(monitor, c, core.parse_trace(impl) if impl is not None else None, impl)
+        print("case:  %s\nimpl (every byte of the object a scheduling point):  %s\nmonitor: %s" % (c, impl, why or "ok"))
+        return 1 if why else 0
     impl = core.run_sharded([exe], [c])[0]
     mod = core.model_run("cond", [c])[0]
     why = monitor(c, core.parse_trace(impl), impl)
